@@ -27,7 +27,7 @@ previous id), so off-by-one errors and wrong comparison directions at run bounda
 import hirq
 from callgraph import callgraph
 from facts import short
-from mir import body_of, callee_path, op_const, op_place
+from mir import body_of, callee_path, op_const, op_place, strip_generics
 from report import site_of
 from c01 import adts_read
 
@@ -36,6 +36,26 @@ from c01 import adts_read
 # C01 R6 requires the muxer to leave the table absent only for samples with these values)
 ABSENT_DEFAULT = {"ctts": 0, "stss": 1}
 UNITS_FLOOR = 80      # dimension checks counted on the pinned tree in the non-fragmented + common regions
+
+
+def _borrowed_place(body, op):
+    """(root local, projection) of the place a reference operand borrows, through reference temporaries and `&mut` aliases"""
+    pl = op_place(op)
+    if pl is None:
+        return None, []
+    l, proj = pl["l"], [x for x in pl["p"] if x != "deref"]
+    for _ in range(6):
+        sd = body.single_def(l)
+        if sd and sd[2] == "assign" and sd[3]["k"] == "ref":
+            proj = [x for x in sd[3]["place"]["p"] if x != "deref"] + proj
+            l = sd[3]["place"]["l"]
+        elif sd and sd[2] == "assign" and sd[3]["k"] in ("use", "cast") and op_place(sd[3]["a"]) is not None:
+            src = op_place(sd[3]["a"])
+            proj = [x for x in src["p"] if x != "deref"] + proj
+            l = src["l"]
+        else:
+            break
+    return l, proj
 
 
 def opt_field_switches(body, field):
@@ -49,6 +69,21 @@ def opt_field_switches(body, field):
         if pl is None or pl["p"]:
             continue
         sd = body.single_def(pl["l"])
+        if sd and sd[2] == "call" and strip_generics(sd[3]["callee"].get("path") or "") in ("core::option::Option::is_none", "core::option::Option::is_some") and sd[3]["args"]:
+            # `x.field.is_none()` / `.is_some()` (possibly through a `&mut` alias of the owner): a bool test of the same Option
+            rl, rproj = _borrowed_place(body, sd[3]["args"][0])
+            flds = [x for x in rproj if isinstance(x, dict) and "f" in x]
+            if flds and flds[-1]["f"] == field:
+                is_none = strip_generics(sd[3]["callee"].get("path") or "").endswith("is_none")
+                t_true = t_false = None
+                for v, tgt in t["targets"]:
+                    if v == 0:
+                        t_false = tgt
+                if t_false is None:
+                    continue
+                t_true = t["otherwise"]
+                out.append((b, t_true, t_false) if is_none else (b, t_false, t_true))
+            continue
         if not sd or sd[2] != "assign" or sd[3]["k"] != "discr":
             continue
         src = sd[3]["place"]
